@@ -232,6 +232,76 @@ def coo_config(h, mesh, trial, test, free=None, inverse=True):
                     [sum(li[0][0, a] * loc[0][0, a] for a in range(n)) - 1], dtype=object))
 
 
+def composite_basis_config(h, mesh, specs, equal_dofnum=False, kind='cell'):
+    """CompositeBasis of 2-3 component bases (b1 * b2, b1 @ b2 and the constructor): the coupled form assembled on the composite
+    basis == the block matrix of the separately assembled component forms under the documented numbering (components one after the
+    other; shared numbers for equal_dofnum), interpolate/split == per-component slices."""
+    import skfem as S
+    from skfem.assembly.basis.composite_basis import CompositeBasis
+    with warnings.catch_warnings():
+        warnings.simplefilter('ignore')
+        m = make_mesh(h, mesh, free=[3] if mesh == 'tri2' else None)
+        dt = object if h.sym_mode else np.float64
+        mk = (lambda e: S.CellBasis(m, e, intorder=3)) if kind == 'cell' else (lambda e: S.FacetBasis(m, e, intorder=3))
+        bases = [mk(make_elem(sp)) for sp in specs]
+        M = len(bases)
+        if M == 2 and not equal_dofnum:
+            cb = bases[0] * bases[1]
+        elif M == 2:
+            cb = bases[0] @ bases[1]
+        else:
+            cb = CompositeBasis(*bases, equal_dofnum=equal_dofnum)
+        Ns = [int(b.N) for b in bases]
+        off = [0] * M if equal_dofnum else [int(sum(Ns[:i])) for i in range(M)]
+        N = Ns[0] if equal_dofnum else int(sum(Ns))
+        h.concrete('N of the composite basis', int(cb.N) == N, '%s vs %s' % (cb.N, N))
+        h.sample(dict(mesh=mesh, components=list(specs), equal_dofnum=equal_dofnum, basis=kind, N=Ns))
+        coef = [[(i + 1) * (3 * j + 1) + (0.5 if i == j else 0.0) for j in range(M)] for i in range(M)]
+
+        def coupled(*args):
+            us, vs = args[:M], args[M:2 * M]
+            out = 0
+            for i in range(M):
+                for j in range(M):
+                    out = out + coef[i][j] * us[j] * vs[i].grad[0] + (i + 2 * j + 1) * us[j] * vs[i]
+            return out
+        (rows, cols), data, shape, _ = S.BilinearForm(coupled, dtype=dt)._assemble(cb)
+        h.concrete('shape of the coupled matrix', tuple(int(x) for x in shape) == (N, N), str(shape))
+        K = np.zeros((N, N), dtype=dt)
+        for r, c, d in zip(rows, cols, data):
+            K[r, c] = K[r, c] + d
+        B = np.zeros((N, N), dtype=dt)
+        for i in range(M):
+            for j in range(M):
+                f = (lambda ci, a: (lambda u, v, w: ci * u * v.grad[0] + a * u * v))(coef[i][j], i + 2 * j + 1)
+                (r2, c2), d2, _, _ = S.BilinearForm(f, dtype=dt)._assemble(bases[j], bases[i])
+                for r, c, d in zip(r2, c2, d2):
+                    B[off[i] + r, off[j] + c] = B[off[i] + r, off[j] + c] + d
+        h.equal('coupled matrix on the composite basis == block matrix of the component forms', K, B)
+        # load vector
+        lin = lambda *args: sum((i + 1) * args[i] + args[i].grad[0] * (2 - i) for i in range(M))
+        o = S.LinearForm(lin, dtype=dt)._assemble(cb)
+        bvec = np.zeros(N, dtype=dt)
+        for r, d in zip(np.asarray(o[0]).reshape(-1), o[1]):
+            bvec[r] = bvec[r] + d
+        want = np.zeros(N, dtype=dt)
+        for i in range(M):
+            o2 = S.LinearForm((lambda i_: (lambda v, w: (i_ + 1) * v + v.grad[0] * (2 - i_)))(i), dtype=dt)._assemble(bases[i])
+            for r, d in zip(np.asarray(o2[0]).reshape(-1), o2[1]):
+                want[off[i] + r] = want[off[i] + r] + d
+        h.equal('load vector on the composite basis == stacked component vectors', bvec, want)
+        if not equal_dofnum:
+            x = h.sym('x', (N,), nominal=(np.arange(N) * 5 % 7) - 2.5)
+            whole = cb.interpolate(x)
+            parts = cb.split(x)
+            h.concrete('split returns one (vector, basis) pair per component', len(parts) == M and all(p[1] is b for p, b in zip(parts, bases)))
+            for i in range(M):
+                sl = x[off[i]:off[i] + Ns[i]]
+                h.concrete('component %d: split slice is the documented one' % i, np.shape(parts[i][0]) == (Ns[i],) and
+                           all((a is b_) or (not h.sym_mode and a == b_) for a, b_ in zip(np.asarray(parts[i][0]).ravel(), np.asarray(sl).ravel())))
+                h.equal('component %d: interpolate(whole) == interpolate(component slice)' % i, np.asarray(whole[i].value), np.asarray(bases[i].interpolate(sl).value))
+
+
 def build_configs(tier, seed):
     quick = tier == 'quick'
     cfgs = []
@@ -263,6 +333,13 @@ def build_configs(tier, seed):
         add('split/tet1/%s' % spec.replace(' ', ''), split_config, mesh='tet1', spec=spec, free='none' if quick else [3], timeout=900 if quick else 3000)
     if not quick:
         add('split/hex1/HexS2xHex1', split_config, mesh='hex1', spec='ElementComposite(ElementHexS2(), ElementHex1())', free='none', timeout=900 if quick else 3000)
+    # CompositeBasis objects (b1 * b2, b1 @ b2, constructor with three bases)
+    for mesh, specs, eq, kind in [('tri2', ('ElementTriP2', 'ElementTriP1'), False, 'cell'), ('tri2', ('ElementTriP1', 'ElementTriP0', 'ElementTriP2'), False, 'cell'),
+                                  ('tri2', ('ElementTriP1', 'ElementTriP1'), True, 'cell'), ('line3perm', ('ElementLineP1', 'ElementLineP2', 'ElementLineP1'), False, 'cell'),
+                                  ('tri2', ('ElementTriP1', 'ElementTriCR', 'ElementTriP0'), False, 'facet'),
+                                  ('line3perm', ('ElementLineP2', 'ElementLineP2', 'ElementLineP2'), True, 'cell')]:
+        add('composite-basis/%s/%s%s/%s' % (mesh, 'x'.join(specs), '/equal_dofnum' if eq else '', kind), composite_basis_config, mesh=mesh, specs=specs,
+            equal_dofnum=eq, kind=kind)
     # partitions of the cells
     add('partition/tri3fan/ElementTriP2', partition_config, mesh='tri3fan', spec='ElementTriP2')
     add('partition/tri3fan/P2xP1', partition_config, mesh='tri3fan', spec='ElementComposite(ElementTriP2(), ElementTriP1())', free='none' if quick else [1, 4])
